@@ -30,8 +30,9 @@ def mk(text, coq, t, op, *kids):
 
 
 class Gen:
-    def __init__(self, rng, cols, max_depth=3, allow_div=True, obj=None):
+    def __init__(self, rng, cols, max_depth=3, allow_div=True, obj=None, lib=False):
         self.rng = rng
+        self.lib = lib              # opt-in (bld-link): also the C18 library functions Eval.apply_func carries (typed ones)
         self.cols = cols            # [(name, type)]
         self.max_depth = max_depth
         self.bytype = {}
@@ -83,8 +84,66 @@ class Gen:
         return mk(f'{name}({", ".join(a.text for a in args)})', f'(EFunc {tag} {clist([a.coq for a in args])})', t,
                   f'{tag}', *args)
 
+    # -- the C18 library behind Eval.apply_func (only when self.lib): the overloads Model/Typing.v types
+    def strconst(self, pool):
+        v = self.rng.choice(pool)
+        return E(values.lit(v), f'(EConst {values.to_coq(v)})', T_STR, ['const:str'])
+
+    LIB_FIELDS = ['weekday', 'dow', 'isoweekday', 'isodow', 'week', 'month', 'quarter', 'year', 'isoyear', 'decade',
+                  'century', 'millennium', 'epoch', 'nope']
+    LIB_NUMSTR = ['12', ' -7 ', '1_000', '+3', '1.5', 'x', '', '2020-01-15', '2020-02-30', '2021-1-5', '0012']
+    LIB_ACCTS = ['Assets:Cash', 'Assets:Bank:Checking', 'Expenses:Food:Out', 'Income', 'Assets:', '']
+
+    def lib_int(self, d):
+        k = self.rng.choice(['year', 'month', 'day', 'date_diff', 'date_part', 'int_str', 'int_bool', 'int_int', 'round1', 'round2'])
+        if k in ('year', 'month', 'day'):
+            return self.func(k, 'F' + k.capitalize(), [self.expr(T_DATE, d)], T_INT)
+        if k == 'date_diff':
+            return self.func('date_diff', 'FDateDiff', [self.expr(T_DATE, d), self.expr(T_DATE, d)], T_INT)
+        if k == 'date_part':
+            return self.func('date_part', 'FDatePart', [self.strconst(self.LIB_FIELDS), self.expr(T_DATE, d)], T_INT)
+        if k == 'int_str':
+            a = self.strconst(self.LIB_NUMSTR) if self.rng.random() < 0.6 else self.expr(T_STR, d)
+            return self.func('int', 'FInt', [a], T_INT)
+        if k == 'int_bool':
+            return self.func('int', 'FInt', [self.expr(T_BOOL, min(d, 1))], T_INT)
+        if k == 'int_int':
+            return self.func('int', 'FInt', [self.expr(T_INT, d)], T_INT)
+        if k == 'round1':
+            return self.func('round', 'FRoundInt1', [self.expr(T_INT, d)], T_INT)
+        return self.func('round', 'FRoundInt', [self.expr(T_INT, d), self.small_int()], T_INT)
+
+    def lib_str(self, d):
+        k = self.rng.choice(['quarter', 'weekday', 'str', 'str', 'root', 'root1', 'parent', 'leaf'])
+        if k in ('quarter', 'weekday'):
+            return self.func(k, 'F' + k.capitalize(), [self.expr(T_DATE, d)], T_STR)
+        if k == 'str':
+            return self.func('str', 'FStr', [self.expr(self.rng.choice(ALL_TYPES), d)], T_STR)
+        a = self.strconst(self.LIB_ACCTS) if self.rng.random() < 0.5 else self.expr(T_STR, d)
+        if k == 'root':
+            return self.func('root', 'FRoot', [a, self.small_int()], T_STR)
+        return self.func(k.rstrip('1'), {'root1': 'FRoot1', 'parent': 'FParent', 'leaf': 'FLeaf'}[k], [a], T_STR)
+
+    def lib_date(self, d):
+        k = self.rng.choice(['ymd', 'ymd', 'of_str', 'of_date'])
+        if k == 'ymd':
+            y = self.rng.choice([self.expr(T_INT, d), E('2020', '(EConst (VInt 2020))', T_INT, ['const:int']),
+                                 E('2024', '(EConst (VInt 2024))', T_INT, ['const:int'])])
+            return self.func('date', 'FDateYmd', [y, self.small_int(), self.expr(T_INT, d)], T_DATE)
+        if k == 'of_str':
+            a = self.strconst(self.LIB_NUMSTR) if self.rng.random() < 0.5 else self.func('str', 'FStr', [self.expr(T_DATE, d)], T_STR)
+            return self.func('date', 'FDate', [a], T_DATE)
+        return self.func('date', 'FDate', [self.expr(T_DATE, d)], T_DATE)
+
+    def lib_decimal(self, d):
+        if self.rng.random() < 0.5:
+            return self.func('decimal', 'FDecimal', [self.expr(T_BOOL, min(d, 1))], T_DEC)
+        return self.func('decimal', 'FDecimal', [self.expr(T_DEC, d)], T_DEC)
+
     # -- per type
     def gen_int(self, d):
+        if self.lib and self.rng.random() < 0.3:
+            return self.lib_int(d)
         r = self.rng.random()
         if r < 0.45:
             sym, tag = self.rng.choice([('+', 'BAdd'), ('-', 'BSub'), ('*', 'BMul'), ('%', 'BMod')])
@@ -101,6 +160,8 @@ class Gen:
         return self.coalesce(T_INT, d)
 
     def gen_decimal(self, d):
+        if self.lib and self.rng.random() < 0.12:
+            return self.lib_decimal(d)
         r = self.rng.random()
         if self.obj and r < 0.25:
             # object OP int|decimal (either side): implicit cast of the untyped side to decimal, result decimal
@@ -130,6 +191,8 @@ class Gen:
         return self.coalesce(T_DEC, d)
 
     def gen_str(self, d):
+        if self.lib and self.rng.random() < 0.4:
+            return self.lib_str(d)
         r = self.rng.random()
         if r < 0.5:
             name, tag = self.rng.choice([('upper', 'FUpper'), ('lower', 'FLower')])
@@ -147,6 +210,8 @@ class Gen:
         return E(str(v), f'(EConst (VInt {v}))', T_INT, ['const:int'])
 
     def gen_date(self, d):
+        if self.lib and self.rng.random() < 0.3:
+            return self.lib_date(d)
         r = self.rng.random()
         n = self.small_int()
         if r < 0.35:
